@@ -118,6 +118,13 @@ func (strategy) PersistEntity(e *Item, ctx *boltz.PersistContext) {
 		b.SetNil("b")
 	}
 	ctx.SetTimeP("t", e.T)
+	lbl := map[string]interface{}{}
+	for k, v := range e.Tags {
+		if sv, ok := v.(string); ok {
+			lbl[k] = sv
+		}
+	}
+	ctx.SetMap("lbl", lbl)
 	ctx.SetStringList("roles", e.Roles)
 	ctx.SetStringP("boss", e.Boss)
 	ctx.SetLinkedIds("peers", e.Peers)
@@ -171,6 +178,13 @@ func NewPublic(pub func(name string) bool) *Store {
 			st.AddEntitySymbol(st.NewEntitySymbol(name, t))
 		}
 	}
+	// a map declared with a concrete element type (the string-valued entries of tags once more), and a field of a type the query
+	// language has no operations for
+	st.AddMapSymbol("lbl", ast.NodeTypeString, "lbl")
+	if pub != nil && pub("lbl") {
+		st.MakeSymbolPublic("lbl")
+	}
+	scalar("blob", ast.NodeTypeOther)
 	if pub == nil {
 		st.AddExtEntitySymbols() // id createdAt updatedAt tags isSystem
 	} else {
